@@ -9,6 +9,9 @@ package mux
 //@ pred sqok(q *ShardQueue) = q.size > 0 && len(q.getters) == q.size && len(q.locks) == q.size && len(q.list) == q.size
 //@     && 0 <= q.w && q.w < q.size && 0 <= q.r && q.r < q.size && q.conn != nil && q.list#arr != q.locks#arr
 //@     && (forall i int :: 0 <= i && i < len(q.list) ==> 0 <= q.list[i] && q.list[i] < q.size)
+//@     && (forall i int :: 0 <= i && i < len(q.getters) ==> (q.getters[i]#arr != q.swap#arr || q.swap#arr == 0) && q.getters[i]#arr <= allocbound())
+//@     && q.swap#arr <= allocbound()
+//@     && (forall i int, j int :: 0 <= i && i < j && j < len(q.getters) ==> q.getters[i]#arr != q.getters[j]#arr || q.getters[i]#arr == 0)
 
 // number of getters invoked so far by the running deal (ghost)
 //@ ghost global dealn int
@@ -66,6 +69,8 @@ package mux
 //@ ghost global sqRechecked bool
 //@ ghost global sqSeen int
 //@ ghost global sqRestarted bool
+// deals completed by the task whose trigger tokens have not been given back yet (ghost)
+//@ ghost global sqPending int
 
 //@ func (*mux.ShardQueue).flush
 //@   property C17
@@ -81,15 +86,16 @@ package mux
 //@ func (*mux.ShardQueue).foreach$1
 //@   property C17
 //@   requires q != nil && sqok(q)
-//@   threadlocal dealn == 0 && !sqCleared && !sqRechecked && !sqRestarted
+//@   threadlocal dealn == 0 && !sqCleared && !sqRechecked && !sqRestarted && sqPending == 0
 //@   ensures sqok(q)
 //@   ensures sqCleared && sqRechecked && (sqSeen > 0 ==> sqRestarted)
 //@   modifies anything
-//@   ghost after call (*mux.ShardQueue).deal#1: dealn = 0
+//@   ghost after call (*mux.ShardQueue).deal#1: dealn = 0; sqPending = sqPending + 1
+//@   ghost before call atomic.AddInt32#1: assert negNum + sqPending == 0; sqPending = 0
 //@   ghost after call atomic.StoreInt32#1: sqCleared = true
 //@   ghost after call atomic.LoadInt32#2: sqRechecked = sqCleared; sqSeen = result
 //@   ghost before call (*mux.ShardQueue).foreach#1: sqRestarted = sqRechecked
-//@   loop 1 invariant sqok(q) && dealn == 0 && !sqCleared && !sqRechecked && !sqRestarted
+//@   loop 1 invariant sqok(q) && dealn == 0 && !sqCleared && !sqRechecked && !sqRestarted && negNum + sqPending == 0 && negNum <= 0 && (negNum == 0 || triggerNum + negNum > 0)
 
 //@ func (*mux.ShardQueue).Close
 //@   property C17
@@ -102,5 +108,7 @@ package mux
 //@   property C17
 //@   requires size >= 1 && size <= 2147483647 && conn != nil
 //@   ensures fresh(queue) && sqok(queue) && queue.state == 0
-//@   loop 1 invariant -1 <= rangeindex && len(queue.getters) == size
+//@   loop 1 invariant -1 <= rangeindex && len(queue.getters) == size && allocated(queue.swap) && queue.swap#arr != 0
+//@   loop 1 invariant forall k int :: 0 <= k && k <= rangeindex ==> queue.getters[k]#arr > queue.swap#arr && allocated(queue.getters[k])
+//@   loop 1 invariant forall k int, j int :: 0 <= k && k < j && j <= rangeindex ==> queue.getters[k]#arr < queue.getters[j]#arr
 //@   modifies nothing
